@@ -418,3 +418,26 @@ Proof.
   - destruct b; [|discriminate]. intros _. exists (WGreenLagrange). exists (all_traits). exists (4). exists (1). exists (1). exists (PNone). exists (1). exists (script_ie_throws).
     destruct a, d; vm_compute; (split; [reflexivity|]); right; reflexivity.
 Qed.
+
+(* ------------------------------------------------------------------ the wrappers in every modelling hypothesis *)
+Lemma wrap_h_other_hypotheses v w has_axial tr K0 K1 K2 p rdt0 s :
+  wrap_h v w false has_axial tr K0 K1 K2 p rdt0 s = wrap v w tr K0 K1 K2 p rdt0 s.
+Proof. unfold wrap_h. destruct (w_called (wrap v w tr K0 K1 K2 p rdt0 s)); reflexivity. Qed.
+
+Lemma wrap_h_axial_declared v w ps tr K0 K1 K2 p rdt0 s :
+  wrap_h v w ps true tr K0 K1 K2 p rdt0 s = wrap v w tr K0 K1 K2 p rdt0 s.
+Proof. unfold wrap_h. destruct (w_called (wrap v w tr K0 K1 K2 p rdt0 s)); destruct ps; reflexivity. Qed.
+
+Lemma wrap_h_refusal v w tr K0 K1 K2 p rdt0 s : needs_axial w K1 = true ->
+  let r := wrap_h v w true false tr K0 K1 K2 p rdt0 s in
+  w_ret r = (-1)%Z /\ w_called r = false /\ w_flux r = FluxUntouched /\ w_K r = WKUntouched /\ state_untouched (w_inner r).
+Proof.
+  intros Hn. unfold wrap_h. rewrite Hn.
+  destruct (w_called (wrap v w tr K0 K1 K2 p rdt0 s)) eqn:Hc; cbn [andb negb].
+  - cbn. repeat split; reflexivity.
+  - (* the request is already refused for its stress measure / tangent operator *)
+    revert Hc. unfold wrap.
+    destruct (stress_measure K1); try (intros _; cbn; repeat split; reflexivity);
+      destruct (tangent_operator K0 K2); try (intros _; cbn; repeat split; reflexivity);
+      destruct w; cbn; intro Hc; discriminate Hc.
+Qed.
